@@ -9,7 +9,7 @@ MANIFEST = {
             "C18_exact_insert, C18_exact_upsert / C18_upsert_pk_reject (INSERT .. ON DUPLICATE KEY UPDATE) (for ALL tables, matched key lists, SET functions, tracked column sets: before image = matched rows "
             "as of before, after image = the same keys as of after, unmatched rows unchanged and absent), C18_pk_reject (a key-changing "
             "UPDATE is refused, by a row-by-row unique-check argument), C18_insert_pk / C18_insert_arg_index (recovered keys = inserted "
-            "keys; the argument index arithmetic of multi-row VALUES), C18_args (structural induction over syntax trees: selected "
+            "keys incl. generated keys of batches and of listed NULL/0 values; a mix is refused: C18_insert_mixed_refused; the argument index arithmetic of multi-row VALUES), C18_args (structural induction over syntax trees: selected "
             "arguments = markers of WHERE/ORDER BY/LIMIT in order) over the node-kind table REGENERATED from traversalArgs by a go/ast "
             "translator. Tie: the REAL proxy runs generated DML inside global transactions over fakedb; decoded undo-log images, the "
             "arguments of the before-image query and the table dumps around each statement are compared with the model inside Coq "
